@@ -86,6 +86,19 @@ theorem stop_is_immediate {σ : Type} (cfg : Cfg) (h : σ → Call → σ × Boo
     exact Lemmas.runN_done cfg h m _ (by rw [e2])
   refine ⟨a1, a2, a4, ?_, ?_, ?_, ?_⟩ <;> rw [e3, e2] <;> simp [a2, a3]
 
+/-- **Training end is reached, once** (rollouts counted in steps — on-policy `n_steps = k`, off-policy
+`train_freq = (k, "step")`; `k ≥ 1`, `n_envs ≥ 1`): whatever the callback answers, `learn(total)` finishes
+within `3 + (k + 3) · total` control-flow steps, and then the protocol monitor is in its final state, i.e.
+the trace ends with the one and only `trainingEnd`. (With episode-counted rollouts termination depends on
+the environment ending episodes; the protocol theorems above do not need it.) -/
+theorem learn_terminates {σ : Type} (cfg : Cfg) (h : σ → Call → σ × Bool) (k : Nat) (hk : 0 < k)
+    (hd : 0 < cfg.nEnvs) (hkind : cfg.kind = .steps k) (prevNum g0 : Nat) (cb : σ) (totalArg : Nat) (reset : Bool) :
+    let s := LS.runN cfg h (3 + (k + 3) * totalArg) (LS.setup prevNum g0 cb totalArg reset)
+    s.pc = .done ∧ (P.run cfg.nEnvs g0 s.trace).st = .final := by
+  have h1 : (LS.runN cfg h (3 + (k + 3) * totalArg) (LS.setup prevNum g0 cb totalArg reset)).pc = .done :=
+    Lemmas.runN_terminates cfg h k hk hd hkind _ _ (by cases reset <;> simp [Lemmas.phi, LS.setup])
+  exact ⟨h1, (protocol_accepted cfg h prevNum g0 cb totalArg reset _).2.2.2 h1⟩
+
 /-! ### The callback tree -/
 
 /-- **CallbackList forwards everything, to every child, whatever the siblings answer**: a user
@@ -382,6 +395,10 @@ example : Cb.events (fun _ => 0) (.eval 0 2 0 0 none (.leaf 1 [2] 0 0 0) (.leaf 
     [⟨0, .evalRun, 2, 2, 0, true⟩, ⟨1, .step, 1, 2, 0, true⟩, ⟨2, .step, 1, 2, 0, true⟩,
      ⟨0, .evalRun, 4, 4, 0, true⟩, ⟨1, .step, 2, 4, 0, false⟩,
      ⟨0, .evalRun, 6, 6, 0, true⟩, ⟨2, .step, 2, 6, 0, true⟩] := by decide
+
+/-- `learn_terminates`' hypotheses: an A2C-like configuration (3 envs, rollouts of 5 steps) -/
+example : (0 : Nat) < 5 ∧ (0 : Nat) < ({ nEnvs := 3, onPolicy := true, kind := .steps 5, dones := fun _ => 0 } : Cfg).nEnvs := by
+  decide
 
 example : evalDue 2 (3 + 1) = true ∧ (3 : Nat) ∉ (Cb.leaf 1 [] 0 0 0).ids := by decide
 
